@@ -11,6 +11,8 @@ package keygen
 //@   ensures[C20] result1 != nil ==> result0 == nil
 //@   ensures[C20] result1 == nil ==> result0 != nil
 //@   loop 1: invariant fresh(PublicSharesECDSA)
+// (induction on the session object) on success the next round starts from the state invariant its methods assume
+//@   ensures result1 == nil ==> (typeis(result0, *round1) && k1ok(result0.(*round1)) && each(result0.(*round1).VSSSecret.coefficients, c, c != nil))
 
 // ---- refresh / keygen round 4 (C08, C02): the new secret share is a NEW scalar -- the previous epoch's share object
 // is left untouched --; every party's new public share is F(j) (+ the previous public share of THAT party when
@@ -31,6 +33,8 @@ package keygen
 //@   loop 3: invariant fresh(PublicData) && ShamirPublicPolynomial != nil
 //@   loop 3: invariant each(r.Helper.partyIDs[:rangeindex+1], j, indom(PublicData, j) && PublicData[j] != nil && PublicData[j].ECDSA != nil)
 //@   loop 3: invariant[C08,C02] each(r.Helper.partyIDs[:rangeindex+1], j, indom(PublicData, j) && PublicData[j] != nil && fresh(PublicData[j]) && ptval(PublicData[j].ECDSA) == ite(r.PreviousPublicSharesECDSA != nil, p_add(evalpt(ShamirPublicPolynomial, idsc(j)), old(ptval(r.PreviousPublicSharesECDSA[j]))), evalpt(ShamirPublicPolynomial, idsc(j))))
+// (induction on the session object) on success the next round starts from the state invariant its methods assume
+//@   ensures result1 == nil ==> (typeis(result0, *round5) && result0.(*round5).round4 == r && result0.(*round5).UpdatedConfig != nil && result0.(*round5).UpdatedConfig.Public != nil)
 
 // ---- round state invariants (established by the start function / the previous Finalize)
 //@ pred khok(h *round.Helper) := h != nil && h.hash != nil && h.hash.h != nil && h.info.Group != nil && typeis(h.info.Group, curve.Secp256k1) && !held(h.mtx)
@@ -126,12 +130,18 @@ package keygen
 //@   loop 2: invariant len(rid) == 32
 //@   loop 3: invariant each(r.Helper.otherPartyIDs, x, kparty(r.round2, x) && idsc(x) != s_zero())
 //@   loop 3: invariant k3ok(r) && skok(r.PaillierSecret) && h != nil && h.h != nil && each(r.VSSSecret.coefficients, c, c != nil) && forall(j, party.ID, inslice(r.Helper.partyIDs, j) ==> (kparty(r.round2, j) && idsc(j) != s_zero()))
+// (induction on the session object) on success the next round starts from the state invariant its methods assume
+//@   ensures result1 == nil ==> (typeis(result0, *round4) && result0.(*round4).round3 == r && len(result0.(*round4).RID) == 32 && len(result0.(*round4).ChainKey) == 32)
 //@ func (*round2).Finalize
 //@   nopanic[C05]
 //@   requires k2ok(r) && out != nil && !closed(out) && r.SchnorrRand != nil && r.Pedersen[r.Helper.info.SelfID] != nil && pedok(r.Pedersen[r.Helper.info.SelfID])
+// (induction on the session object) on success the next round starts from the state invariant its methods assume
+//@   ensures result1 == nil ==> (typeis(result0, *round3) && k3ok(result0.(*round3)) && result0.(*round3).round2 == r)
 //@ func (*round5).Finalize
 //@   nopanic[C05]
 //@   requires r != nil && k4ok(r.round4)
 //@ func (*round1).Finalize
 //@   nopanic[C05]
 //@   requires k1ok(r) && out != nil && !closed(out) && each(r.VSSSecret.coefficients, c, c != nil) && idsc(r.Helper.info.SelfID) != s_zero()
+// (induction on the session object) on success the next round starts from the state invariant its methods assume
+//@   ensures result1 == nil ==> (typeis(result0, *round2) && k2ok(result0.(*round2)) && skok(result0.(*round2).PaillierSecret) && result0.(*round2).PedersenSecret != nil && result0.(*round2).SchnorrRand != nil)
